@@ -3,6 +3,7 @@
   copy left behind is dead), a damaged one, and the later delivery of a dead copy (acknowledged again).
 -/
 import YowsupVerif.Lemmas.E2ETokFSim
+import YowsupVerif.Lemmas.E2ETokFHeC
 namespace Yow.E2E
 
 section
@@ -22,6 +23,16 @@ theorem sim_flat' {L : List (Acct × Node)} {s s' : Sys} {o2 : List (Acct × Lis
     intro st hst
     rw [← hq z] at hst
     exact live_of_unop hT2 (hin z st hst) (show st ∈ (view (s'.wo o2 f2)).outb z from hst)
+
+/-- what was live before the step and stays queued is live after it -/
+theorem sim_keeps_live {L : List (Acct × Node)} {s s' : Sys} {o2 : List (Acct × List Stanza)} {f2 : List (Nat × Acct)}
+    (hT2 : TV ex accts groups L (view (s'.wo o2 f2))) (hin : ∀ z st, st ∈ queueOf o2 z → z ∈ accts)
+    (P : Acct → List Stanza) (hq : ∀ z, queueOf o2 z = liveQ (getClient s z) (P z)) :
+    ∀ z st, st ∈ P z → dead (getClient s z) st = false → dead (getClient s' z) st = false := by
+  intro z st hst hd
+  have hm : st ∈ queueOf o2 z := by
+    rw [hq z]; unfold liveQ; exact List.mem_filter.mpr ⟨hst, by simp [hd]⟩
+  exact live_of_unop hT2 (hin z st hm) (show st ∈ (view (s'.wo o2 f2)).outb z from hm)
 
 theorem liveQ_cons_live {c : Client} {st : Stanza} (h : dead c st = false) (rest : List Stanza) :
     liveQ c (st :: rest) = st :: liveQ c rest := by
@@ -48,7 +59,9 @@ theorem clientReceive_submitted {s : Sys} {y : Acct} {st : Stanza} (hA : AInv ac
 theorem sim_deliver_live (hw : WFConfig accts groups) {s : Sys} {y : Acct} {st : Stanza} {rest : List Stanza}
     (hA : AInv accts groups (abs s)) (hT : TV ex accts groups s.submitted (view (flat s)))
     (hlen : s.submitted.length ≤ 100) (hq : queueOf s.outbound y = st :: rest) (hlive : dead (getClient s y) st = false) :
-    TV ex accts groups (step s (.deliver y .none)).submitted (view (flat (step s (.deliver y .none)))) := by
+    TV ex accts groups (step s (.deliver y .none)).submitted (view (flat (step s (.deliver y .none)))) ∧
+    (∀ z st, st ∈ queueOf (insert s.outbound y rest) z → dead (getClient s z) st = false →
+      dead (getClient (step s (.deliver y .none)) z) st = false) := by
   have hI : TInv ex accts groups (flat s) := ⟨AInv_flat hA, hT⟩
   have hqf : queueOf (flat s).outbound y = st :: liveQ (getClient s y) rest := by
     rw [queueOf_flat, hq, liveQ_cons_live hlive]
@@ -69,7 +82,9 @@ theorem sim_deliver_live (hw : WFConfig accts groups) {s : Sys} {y : Acct} {st :
   rw [hsub, hwo] at h2T
   have h2A := h2.1
   rw [hwo] at h2A
-  refine sim_flat (s := s) h2T (fun z st' hst' => (h2A.outb_ok z st' hst').1) ?_ ?_
+  refine ⟨sim_flat (s := s) h2T (fun z st' hst' => (h2A.outb_ok z st' hst').1) ?_ ?_,
+    sim_keeps_live (s := s) h2T (fun z st' hst' => (h2A.outb_ok z st' hst').1)
+      (fun z => queueOf (insert s.outbound y rest) z) (fun z => queue_after_pop s y rest z)⟩
   · intro z
     rw [e1]
     exact Grow.clientReceive s y st z
@@ -84,7 +99,9 @@ theorem sim_deliver_dup (hw : WFConfig accts groups) {s : Sys} {y : Acct} {rest 
     (hlen : s.submitted.length ≤ 100) (hq : queueOf s.outbound y = .msg id peer part im encs pl :: rest)
     (hlive : dead (getClient s y) (.msg id peer part im encs pl) = false)
     (hdead' : dead (getClient (clientReceive s y (.msg id peer part im encs pl)) y) (.msg id peer part im encs pl) = true) :
-    TV ex accts groups (step s (.deliver y .dup)).submitted (view (flat (step s (.deliver y .dup)))) := by
+    TV ex accts groups (step s (.deliver y .dup)).submitted (view (flat (step s (.deliver y .dup)))) ∧
+    (∀ z st, st ∈ queueOf (insert s.outbound y rest) z → dead (getClient s z) st = false →
+      dead (getClient (step s (.deliver y .dup)) z) st = false) := by
   have hI : TInv ex accts groups (flat s) := ⟨AInv_flat hA, hT⟩
   have hqf : queueOf (flat s).outbound y = .msg id peer part im encs pl :: liveQ (getClient s y) rest := by
     rw [queueOf_flat, hq, liveQ_cons_live hlive]
@@ -105,8 +122,10 @@ theorem sim_deliver_dup (hw : WFConfig accts groups) {s : Sys} {y : Acct} {rest 
   rw [hsub, hwo] at h2T
   have h2A := h2.1
   rw [hwo] at h2A
-  refine sim_flat' (s := s) h2T (fun z st' hst' => (h2A.outb_ok z st' hst').1) ?_
-    (fun z => queueOf (insert s.outbound y rest) z) (fun z => queue_after_pop s y rest z) ?_
+  refine ⟨sim_flat' (s := s) h2T (fun z st' hst' => (h2A.outb_ok z st' hst').1) ?_
+    (fun z => queueOf (insert s.outbound y rest) z) (fun z => queue_after_pop s y rest z) ?_,
+    sim_keeps_live (s := s) h2T (fun z st' hst' => (h2A.outb_ok z st' hst').1)
+      (fun z => queueOf (insert s.outbound y rest) z) (fun z => queue_after_pop s y rest z)⟩
   · intro z
     rw [e1]
     exact Grow.clientReceive s y _ z
@@ -129,13 +148,32 @@ theorem sim_deliver_corrupt (hw : WFConfig accts groups) {s : Sys} {y : Acct} {r
     (hlive : dead (getClient s y) (.msg id peer part im encs pl) = false)
     (hshape' : DownShape (.msg id peer part im (corruptLast encs) pl))
     (hctr : (corruptLast encs).map (fun e => e.2.ctr) = encs.map (fun e => e.2.ctr))
-    (hpark : ∀ c' out, ¬ OutC (getClient s y) (.msg id peer part im (corruptLast encs) pl) peer part (whoOf peer part) c' out) :
-    TV ex accts groups (step s (.deliver y .corrupt)).submitted (view (flat (step s (.deliver y .corrupt)))) := by
+    (hns : ∀ ct, heFirst (corruptLast encs) = some ct → (decrypt (getClient s y) (whoOf peer part) ct).2 ≠ .noSession) :
+    TV ex accts groups (step s (.deliver y .corrupt)).submitted (view (flat (step s (.deliver y .corrupt)))) ∧
+    (∀ z st, st ∈ queueOf (insert s.outbound y rest) z → dead (getClient s z) st = false →
+      dead (getClient (step s (.deliver y .corrupt)) z) st = false) := by
   have hqf : queueOf (flat s).outbound y = .msg id peer part im encs pl :: liveQ (getClient s y) rest := by
     rw [queueOf_flat, hq, liveQ_cons_live hlive]
   have hmem : Stanza.msg id peer part im encs pl ∈ (abs s).outb y := by
     show _ ∈ queueOf s.outbound y; rw [hq]; simp
   obtain ⟨hy, hd, _⟩ := hA.outb_ok y _ hmem
+  have hpark : ∀ c' out,
+      RStep { flat s with outbound := insert (flat s).outbound y (liveQ (getClient s y) rest) }
+        (handleEnc { flat s with outbound := insert (flat s).outbound y (liveQ (getClient s y) rest) } y
+          (.msg id peer part im (corruptLast encs) pl)) y c' out →
+      ¬ OutC (getClient s y) (.msg id peer part im (corruptLast encs) pl) peer part (whoOf peer part) c' out := by
+    intro c' out hst hc
+    have hacc0 : y ∈ (view { flat s with outbound := insert (flat s).outbound y (liveQ (getClient s y) rest) }).accounts := by
+      show y ∈ (view (flat s)).accounts
+      rw [hT.acc]; exact hy
+    have h1 := rstep_handleEnc hacc0 id peer part im (corruptLast encs) pl
+    have e : c' = (heC (getClient s y) id peer part im (corruptLast encs) pl).1 := by
+      rw [← hst.cl, h1.cl]; rfl
+    have q := (quiet_heC (getClient s y) id peer part im (corruptLast encs) pl hns).1.iqReg
+    have h3 := hc.1
+    rw [e, q] at h3
+    have := congrArg List.length h3
+    simp at this
   have h2 := deliver_msg_TV' (ex := ex) hw (AInv_flat hA) hT hqf hshape' hctr (fun _ => hpark)
   have e1 : step s (.deliver y .corrupt)
       = (clientReceive s y (.msg id peer part im (corruptLast encs) pl)).wo (insert s.outbound y rest) (s.faulted ++ [(id, y)]) := by
@@ -154,7 +192,18 @@ theorem sim_deliver_corrupt (hw : WFConfig accts groups) {s : Sys} {y : Acct} {r
     exact clientReceive_submitted hA hy hd' (LinkOK.of_none rfl)
   rw [hsub]
   rw [e2] at h2
-  refine sim_flat (s := s) h2 ?_ ?_ ?_
+  have hin : ∀ z st', st' ∈ queueOf (insert (flat s).outbound y (liveQ (getClient s y) rest)) z → z ∈ accts := by
+    intro z st' hst'
+    rw [queue_after_pop] at hst'
+    have := (mem_liveQ hst').1
+    rw [queueOf_insert] at this
+    split at this
+    · next e =>
+      subst e
+      exact hy
+    · exact (hA.outb_ok z st' this).1
+  refine ⟨sim_flat (s := s) h2 ?_ ?_ ?_, sim_keeps_live (s := s) h2 hin
+      (fun z => queueOf (insert s.outbound y rest) z) (fun z => queue_after_pop s y rest z)⟩
   · intro z st' hst'
     rw [queue_after_pop] at hst'
     have := (mem_liveQ hst').1
